@@ -42,8 +42,8 @@ func genC03Cli(r *hysim.Rand, tier string) *hysim.Script {
 	nsess := r.Range(1, 4)
 	sc.Cfg["nsess"] = int64(nsess)
 	sc.Cfg["limit"] = int64(r.Pick(0, 0, 1200, 300, 64))
-	if r.Chance(1, 2) {
-		sc.Cfg["y_gs"] = int64(r.Pick(32, 128))
+	if r.Chance(2, 3) {
+		sc.Cfg["y_gs"] = int64(r.Pick(32, 128, 400))
 	}
 	sid := func() int64 {
 		if r.Chance(1, 6) {
@@ -63,7 +63,12 @@ func genC03Cli(r *hysim.Rand, tier string) *hysim.Script {
 		case p < 64:
 			sc.Ops = append(sc.Ops, hysim.Op{K: "pause", A: []int64{int64(r.Range(1, nsess)), int64(r.Pick(0, 1))}})
 		case p < 67:
-			sc.Ops = append(sc.Ops, hysim.Op{K: "flood", A: []int64{int64(r.Range(1, nsess)), int64(r.Pick(10, 200, 1100, 1500))}})
+			fs := int64(r.Range(1, nsess))
+			sc.Ops = append(sc.Ops, hysim.Op{K: "flood", A: []int64{fs, int64(r.Pick(10, 200, 1100, 1500))}})
+			if r.Chance(1, 2) {
+				// the application closes the session while replies for it are being dispatched
+				sc.Ops = append(sc.Ops, hysim.Op{K: "close", A: []int64{fs}})
+			}
 		case p < 73:
 			sc.Ops = append(sc.Ops, hysim.Op{K: "close", A: []int64{int64(r.Range(1, nsess))}})
 		case p < 78:
